@@ -277,5 +277,26 @@ def run(rep: Report, tier: str) -> None:
         if q not in P.functions:
             raise AnalysisError(f"reviewed writer {q} vanished: re-review the R10.4 table")
     rep.analysed = {"pipeline_functions": nfun, "structure_writes_in_pipeline": nwrites, "role_nullable_writes": nrw}
+    # ---- R10.5: the structure the transpiler infers for an intermediate DS op DS result == the interpreter's (finite model) ----
+    rep.rule("R10.5", "intermediate structure of a dataset-dataset operator: StructureVisitor agrees with semantic analysis on identifiers and measures (finite model, both evaluated from source)")
+    from sa import structmodel as _sm
+    _M = _sm.Model(P)
+    _n = 0
+    for _lab, _li, _ri, _lm, _rm in _sm.BINARY_SHAPES:
+        _L, _R = _M.ds("DS_1", _li, _lm), _M.ds("DS_2", _ri, _rm)
+        _a = _M.interpreter_binary("vtlengine.Operators.Numeric.BinPlus", _L, _R)
+        _L2, _R2 = _M.ds("DS_1", _li, _lm), _M.ds("DS_2", _ri, _rm)
+        _b = _M.visitor_binary(_L2, _R2)
+        _n += 1
+        rep.instance("R10.5", f"ds-ds/{_lab}", nontrivial=True, sample={"interpreter": _a[1].summary() if _a[0] == "ok" else _a, "structure_visitor": _b[1].summary() if _b[0] == "ok" else _b})
+        if _a[0] != "ok":
+            continue  # rejected by semantic analysis: no intermediate structure is needed
+        if _b[0] != "ok" or _a[1].summary() != _b[1].summary():
+            _f = P.func(_sm.SV + "._build_ds_ds_binop_structure")
+            rep.add(Finding("R10.5", f"R10.5/ds-ds/{_lab}", _f.module.rel, _f.node.lineno, _f.qualname,
+                            f"for DS_1(ids {_li}, measures {_lm}) op DS_2(ids {_ri}, measures {_rm}) semantic analysis gives identifiers/measures {_a[1].summary()} but the "
+                            f"transpiler's structure for the same intermediate result is {_b[1].summary() if _b[0] == 'ok' else _b}: an enclosing operator joins on / projects the wrong "
+                            f"identifiers (nested expressions such as (DS_1 + DS_2) * DS_3 give spurious or missing datapoints)"))
+    rep.floor("R10.5 shapes", _n, 6)
     rep.assumptions = ["structure objects are changed only through attribute stores / dict mutation of .components (no setattr/__dict__ tricks: none exist in the package)",
                        "values, uniqueness and nullability of the DATA are produced by DuckDB and are not decided here"]
